@@ -29,8 +29,9 @@ def _reexec_if_needed(argv):
     env = dict(os.environ)
     env.update(want)
     env["BCSIM_REEXEC"] = "1"
-    pp = [p for p in env.get("PYTHONPATH", "").split(":") if p and p not in ("/repo", VERIF)]
-    env["PYTHONPATH"] = ":".join(["/repo", VERIF] + pp)
+    repo = os.environ.get("BCSIM_REPO", "/repo")
+    pp = [p for p in env.get("PYTHONPATH", "").split(":") if p and p not in ("/repo", repo, VERIF)]
+    env["PYTHONPATH"] = ":".join([repo, VERIF] + pp)
     os.execve(sys.executable, [sys.executable, "-m", "bcsim.main"] + argv, env)
 
 
